@@ -204,7 +204,7 @@ Section Segment.
     rec_rel lg l -> seg_ok lg full -> replay_batch seed full l = Val l' -> rec_rel (lg ++ [full]) l'.
   Proof.
     intros seed full l l' [Rc Rcols Rm] S H.
-    pose proof S as [b [extra [Ef [W [M Hs]]]]]. subst full.
+    pose proof S as [b [extra [Ef [W [M [_ Hs]]]]]]. subst full.
     destruct (replay_batch_spec _ _ _ _ H) as [_ [A _]].
     constructor.
     - intro n. rewrite acked_rows_snoc, <- (Rc n). apply table_content_appended. apply A.
@@ -246,4 +246,18 @@ Proof.
       with ((lg ++ [sg_data sg]) ++ map (fun x => sg_data (snd x)) w) by (rewrite <- app_assoc; reflexivity).
     eapply IH; [rewrite <- app_assoc; exact LOK| |exact H].
     eapply replay_segment; eauto.
+Qed.
+
+Lemma restore_tables_cols_gen : forall seed (l l0 : tabsT),
+  restore_tables seed l = Val l0 -> forall n tt, lookup n l0 = Some tt -> t_cols tt = seed_cols seed n None.
+Proof.
+  induction l as [|[k t] l IH]; cbn [restore_tables]; intros l0.
+  - intro H. injection H as <-. intros n tt L. discriminate.
+  - destruct (restore_tables seed l) as [r| | | |] eqn:Er; cbn [bind]; try discriminate.
+    destruct (t_meta t).
+    + intro H. injection H as <-. apply IH. reflexivity.
+    + unfold restore. destruct (restore_parts _ _); cbn [of_opt bind]; [|discriminate].
+      intro H. injection H as <-. intros n tt L. cbn in L. destruct (name_eqb n k) eqn:E.
+      * apply name_eqb_eq in E. subst. injection L as <-. reflexivity.
+      * eapply IH; eauto.
 Qed.
